@@ -283,3 +283,14 @@ def with_flatten_fallback(rep, fn, body, select=None) -> None:
     b1.replay(rep)
     if err1 is not None:
         raise err1
+
+
+def guarded(rep, rule_fn, *args, **kwargs) -> None:
+    """Run one rule; an AnalysisError of that rule (a lost anchor) is recorded as an analysis error of the run - exit 2 - without keeping the
+    other rules of the property from being evaluated."""
+    from sa.model import AnalysisError
+
+    try:
+        rule_fn(*args, **kwargs)
+    except AnalysisError as e:
+        rep.error(str(e))
